@@ -716,6 +716,10 @@ func goCode(root string, unit string) string {
 		header("Model.GoSem", "Model.GoSlices")
 		text, errs := translateSplicer(parseFile(root, "splicer/splicer.go"), parseFile(root, "pub/interfaces.go"), "Splicer", []string{"Harvest", "clone", "replenish", "microharvest"})
 		emit("splicer/splicer.go (element type, Harvest, clone, replenish, microharvest)", text, errs)
+	case "view":
+		header("Model.GoSem", "Model.GoSlices", "Model.GoCtl", "Model.Ansi", "Model.Style", "Generated.GoAnsi", "Generated.GoFeed", "Generated.GoHistory")
+		text, errs := translateView(root)
+		emit("ui/ui.go ((*State).view)", text, errs)
 	default:
 		b.WriteString("-- unknown unit " + unit + "\n")
 	}
